@@ -22,8 +22,9 @@ CHECKS = {
              "NOT a proof: global convergence of a floating-point iteration is outside what per-function contracts can "
              "decide (DESIGN 9/C01). Bounded run-time contract: the property's postcondition (recomputed projected "
              "gradient at the tolerance / objective-resolution level) evaluated on generated strictly convex box problems "
-             "of the property's families; thorough tier also reports proved necessary conditions (Cauchy/subspace "
-             "obligations) as supporting evidence.",
+             "of the property's families; plus one PROVED necessary condition on the real main loop (abnormal "
+             "termination is only reported after a line search failed with the memory already reset); thorough tier also "
+             "reports the Cauchy/subspace obligations as supporting evidence.",
              "DESIGN.md 9 C01", "bounded stand-in only; tolerance stated in the evidence.",
              "bounded run-time contract checking (stand-in; deductive family not applicable to the convergence claim)"),
     "C02": E("proof",
@@ -58,8 +59,9 @@ CHECKS = {
              "Restore contract of initialize_X_and_G proved in real arithmetic at fixed shapes (component-wise: n=1 "
              "complete in n; pairs 1..4 x maxcor 1..4): most recent points, chronological order, checkpoint untouched; "
              "restart provenance (counters, f0, grad, zero-iteration restart returns the checkpoint's pairs) proved in "
-             "the UF domain; matrices rebuilt from the deques (unit BFGS). 'Same continuation' = determinism lemma (hand) "
-             "+ bounded native comparison.",
+             "the UF domain; loop invariant mats_current (the matrices in use are the ones built from the stored history); "
+             "matrices rebuilt from the deques (unit BFGS). 'Same continuation' = determinism lemma (hand) + bounded "
+             "native comparison (next iterate and counters).",
              "DESIGN.md 9 C06", "A-REAL for the restore contract; lemma C06::same_continuation by hand.",
              T + "fixed-shape real-arithmetic VCs (z3) + UF provenance; bounded stand-in for the end-to-end clause"),
     "C07": E("proof",
@@ -105,8 +107,9 @@ CHECKS = {
     "C13": E("other",
              "Proved: filter contract of make_X_and_G_respect_strong_wolfe (loop invariant, symbolic memory size); in main "
              "with an arbitrary update function the rewritten history is filtered before use/return (deque invariant and "
-             "hess_inv clauses hold for the rewritten G at every exit and callback site). Bounded: identity-update and "
-             "restart-equivalence clauses (native).",
+             "hess_inv clauses hold for the rewritten G at every exit and callback site), the filter is the identity on a "
+             "valid history, and the matrices in use are rebuilt from the rewritten history (invariant mats_current). "
+             "Bounded: identity-update and restart-equivalence clauses (native).",
              "DESIGN.md 9 C13", "update_fun_def returns a deque of equal length; identity/restart clauses bounded.",
              T + "function contract with for-loop invariant + main loop invariant, UF domain, z3"),
     "C14": E("proof",
